@@ -110,6 +110,22 @@ func genGovSubmit(g *G) *Op {
 // minimum stake of voters) and whatever the proposal's state.
 func genGovVote(g *G) *Op {
 	u := g.User()
+	// three times in four the voter is somebody who has staked something – much, little or next to nothing
+	if val, err := sdk.ValAddressFromBech32(g.W.ValAddr); err == nil && g.Int("gov/staker", 0, 3) > 0 {
+		var stakers []*Account
+		ctx := g.W.ReadCtx()
+		for _, a := range g.W.Accounts {
+			if g.Busy[a.Addr.String()] {
+				continue
+			}
+			if d, err := g.W.App.StakingKeeper.GetDelegation(ctx, a.Addr, val); err == nil && d.Shares.IsPositive() {
+				stakers = append(stakers, a)
+			}
+		}
+		if len(stakers) > 0 {
+			u = stakers[g.Pick("gov/stakerwho", len(stakers))]
+		}
+	}
 	next, err := g.W.App.GovKeeper.ProposalID.Peek(g.W.ReadCtx())
 	if err != nil || next <= 1 {
 		return nil
